@@ -39,6 +39,12 @@ The translation scheme
         is refused; iterating directly over a name that the loop body mutates is refused; iterating over a live
         networkx view (`G.successors(n)`, `G.predecessors(n)`) without `list(...)` is refused when the body mutates
         anything.
+  * Iteration order.  Wherever Python observes the order of a set (`for x in s`, `list(s)`, a comprehension over a
+    set, `enumerate(s)`, `combinations(s, 2)`) the set is wrapped in `py_iter_set py_order k`, and the library calls
+    whose result order is unspecified (get_children, get_parents, get_neighbors, successors, predecessors,
+    get_all_causal_paths) take `py_order k` as well; `py_order : pyorder` is a section variable of the generated file
+    (an arbitrary function from lists to lists) and k numbers the observation sites of each function.  The proofs hold
+    for every `py_order` that returns a permutation of its argument.
   * Calls of translated functions, `set.intersection(*..)`, `s.remove(x)`, `remove_edge` and `get_all_causal_paths`
     can fail (exception / fuel): they are hoisted, in evaluation order, into `py_bind inj <call> (fun result => ...)`
     in front of the statement.  They are refused in positions that Python evaluates conditionally or repeatedly
@@ -352,6 +358,17 @@ class Translator:
         return [p for p in params if p in hit]
 
     # ------------------------------------------------------------------------------------------------ helpers
+    def site(self):
+        """Number of the next point of the current function at which an unspecified order is observed."""
+        self.sites += 1
+        return str(self.sites)
+
+    def iter_set(self, text, kind):
+        """Iterating over a set object: the order is given by the oracle."""
+        if kind[0] == 'set':
+            return f'py_iter_set py_order {self.site()} {self.atom(text)}', LIST(elem_of(kind))
+        return text, kind
+
     def fresh(self, base='tmp'):
         self.tmp += 1
         return f'{base}_{self.tmp}'
@@ -560,6 +577,7 @@ class Translator:
             it, kit, _ = self.expr(g.iter, env2, fx if i == 0 else None)
             if kit[0] not in ('list', 'set'):
                 raise Unsupported(g.iter, 'comprehension over something that is not a list / set')
+            it, kit = self.iter_set(it, kit)
             if g.target.id in env2 or g.target.id in self.funcs:
                 raise Unsupported(g.target, f'comprehension variable {g.target.id} shadows another name')
             env2[g.target.id] = Var(self.vname(g.target.id), elem_of(kit), owned=False)
@@ -699,6 +717,7 @@ class Translator:
                 (t, k, _), = self.plain_args(e, 1, env, fx)
                 if k[0] not in ('set', 'list', 'view'):
                     raise Unsupported(e, 'list(...) of something that is not a collection')
+                t, k = self.iter_set(t, k)
                 return f'py_list {self.atom(t)}', LIST(elem_of(k)), True
             if f.id == 'len':
                 (t, k, _), = self.plain_args(e, 1, env, fx)
@@ -719,6 +738,7 @@ class Translator:
                 t, k, _ = self.expr(e.args[0], env, fx)
                 if k[0] not in ('set', 'list') or elem_of(k) not in (NODE, UNKNOWN):
                     raise Unsupported(e, 'combinations(x, 2): x must be a list / set of identifiers')
+                t, k = self.iter_set(t, k)
                 return f'py_combinations2 {self.atom(t)}', LIST(TUPLE(NODE, NODE)), True
             if f.id in self.funcs:
                 return self.user_call(e, env, fx, hint)
@@ -775,17 +795,17 @@ class Translator:
                 return f'py_cg_get_descendants eqb {R} {a}', SET(NODE), True
             if m == 'get_children':
                 a, = node_arg()
-                return f'py_cg_get_children eqb {R} {a}', LIST(NODE), True
+                return f'py_cg_get_children eqb py_order {self.site()} {R} {a}', LIST(NODE), True
             if m == 'get_parents':
                 a, = node_arg()
-                return f'py_cg_get_parents eqb {R} {a}', LIST(NODE), True
+                return f'py_cg_get_parents eqb py_order {self.site()} {R} {a}', LIST(NODE), True
             if m == 'get_neighbors':
                 a, = node_arg()
-                return f'py_cg_get_neighbors eqb {R} {a}', LIST(NODE), True
+                return f'py_cg_get_neighbors eqb py_order {self.site()} {R} {a}', LIST(NODE), True
             if m == 'get_all_causal_paths':
                 a, b = node_arg(2, ['source', 'destination'])
                 name = hint or self.fresh()
-                self.bind(e, fx, name, f'py_cg_get_all_causal_paths eqb {R} {a} {b}')
+                self.bind(e, fx, name, f'py_cg_get_all_causal_paths eqb py_order {self.site()} {R} {a} {b}')
                 return name, LIST(LIST(NODE)), True
             if m == 'copy':
                 self.plain_args(e, 0, env, fx)
@@ -802,7 +822,7 @@ class Translator:
                 return f'py_mcg_get_bidirected_edges {R}', LIST(EDGE), True
             if m == 'get_neighbors':
                 a, = node_arg()
-                return f'py_mcg_get_neighbors eqb {R} {a}', LIST(NODE), True
+                return f'py_mcg_get_neighbors eqb py_order {self.site()} {R} {a}', LIST(NODE), True
             if m == 'edge_exists':
                 a, b = node_arg(2)
                 return f'py_mcg_edge_exists eqb {R} {a} {b}', BOOL, True
@@ -814,10 +834,10 @@ class Translator:
         if krecv == NX:
             if m == 'successors':
                 a, = node_arg()
-                return f'py_nx_successors eqb {R} {a}', VIEW(NODE), False
+                return f'py_nx_successors eqb py_order {self.site()} {R} {a}', VIEW(NODE), False
             if m == 'predecessors':
                 a, = node_arg()
-                return f'py_nx_predecessors eqb {R} {a}', VIEW(NODE), False
+                return f'py_nx_predecessors eqb py_order {self.site()} {R} {a}', VIEW(NODE), False
         if krecv[0] == 'set' or (krecv == UNKNOWN and m in ('union', 'intersection', 'difference')):
             if m == 'copy':
                 self.plain_args(e, 0, env, fx)
@@ -1229,15 +1249,19 @@ class Translator:
             t, k, _ = self.expr(it.args[0], env, fx)
             if k[0] not in ('list', 'set'):
                 raise Unsupported(it, 'enumerate of something that is not a list / set')
+            t, k = self.iter_set(t, k)
             itext, ikind, inner_iter = f'py_enumerate {self.atom(t)}', LIST(TUPLE(INT, elem_of(k))), it.args[0]
         else:
             t, k, _ = self.expr(it, env, fx)
             if k[0] not in ('list', 'set', 'view'):
                 raise Unsupported(it, f'iteration over a value of kind {k[0]}')
+            was_view = k[0] == 'view'
+            t, k = self.iter_set(t, k)
             itext, ikind, inner_iter = t, k, it
         if fx.rebound:
             raise Unsupported(st, 'a mutating call in the iterable of a loop is not supported')
-        if k[0] == 'view' and self.mutates_anything(body):
+        if not (isinstance(it, ast.Call) and isinstance(it.func, ast.Name) and it.func.id == 'enumerate'
+                and 'enumerate' not in env) and was_view and self.mutates_anything(body):
             raise Unsupported(st, 'iteration over a live networkx view while the loop body mutates something '
                               '(take a list(...) snapshot)')
         assigned = self.assigned_names(body, env)
@@ -1295,6 +1319,7 @@ class Translator:
     def function(self, info):
         self.cur = info
         self.tmp = 0
+        self.sites = 0
         env = {}
         params = []
         for p, kind, _ in info.params:
@@ -1389,7 +1414,10 @@ def main(argv):
         '  Variable eqb : A -> A -> bool.\n'
         '  (** the values standing for [None] and for the empty string *)\n'
         '  Variable py_None : A.\n'
-        '  Variable py_empty_str : A.\n\n'
+        '  Variable py_empty_str : A.\n'
+        '  (** the order in which sets (and the collections that the library builds from sets / dictionaries) are\n'
+        '      iterated: an arbitrary permutation, chosen per observation site *)\n'
+        '  Variable py_order : pyorder.\n\n'
     )
     text = header + '\n\n'.join(Translator.indent(p) for p in parts) + '\nEnd IdentifyGen.\n'
     if len(text) > MAX_OUTPUT_CHARS:
